@@ -90,6 +90,9 @@ CONTEXTS = {
     "compare": "({f} > 0)",
     "nested": "sqrt(fabs({f}))",
     "arg-arith": None,     # function applied to an arithmetic expression
+    "int-args": None,      # every argument an int-typed expression: the result is still the function's (floating) value
+    "int-args-plus": None,
+    "int-args-sum": None,
 }
 
 
@@ -163,6 +166,22 @@ def main(tier="quick"):
                 continue
             f = call_text(n)
             for ctx, tmpl in CONTEXTS.items():
+                if ctx.startswith("int-args"):
+                    kinds = TABLE[n][0]
+                    if n in ("acos", "asin", "atanh"):
+                        ia = ["(j.nTrk() - j.nTrk())"]      # stay inside the domain: 0
+                    else:
+                        ia = ["j.nTrk()", "2", "(j.nTrk() + 1)"][:len(kinds)]
+                    call = f"{n}(" + ", ".join(ia) + ")"
+                    if ctx == "int-args":
+                        q = f"ds.SelectMany(lambda e: e.{coll}('A')).Select(lambda j: {call})"
+                    elif ctx == "int-args-plus":
+                        q = f"ds.SelectMany(lambda e: e.{coll}('A')).Select(lambda j: ({call} * 2 + 1))"
+                    else:
+                        q = f"ds.Select(lambda e: e.{coll}('A').Select(lambda j: {call}).Sum())"
+                    cases.append(Case(pid, backend, q, md, {"function": n, "context": ctx}))
+                    pid += 1
+                    continue
                 if ctx == "arg-arith":
                     kinds = TABLE[n][0]
                     expr = f"{n}(" + ", ".join(["(j.pt() + 0.25)"] + {"d": [], "dd": ["(j.eta() * 2)"], "di": ["(j.nTrk() + 1)"], "ddd": ["j.eta()", "0.5"]}[kinds]) + ")"
